@@ -731,6 +731,28 @@ func (e *Exec) evalCall(x ECall, env *Env) Val {
 			ref = ""+e.sbase(v.T)+""
 		}
 		return boolVal("(<= " + ref + " " + e.top(env.st) + ")")
+	case "unchangedElems":
+		// unchangedElems("T"): every []T element row that existed at function entry still has its entry contents
+		ts, ok := x.Args[0].(EStr)
+		if !ok {
+			e.unsupported("unchangedElems(\"type\")")
+		}
+		_, ty := e.resolveType(ts.Val, nil)
+		h, hs := e.elemHeap(ty)
+		r := Sym(e.Out.FreshName("ue$r"))
+		i := Sym(e.Out.FreshName("ue$i"))
+		cur, old := e.get(env.st, h, hs), e.get(env.old, h, hs)
+		if cur == old {
+			return boolVal("true")
+		}
+		return boolVal("(forall ((" + r + " Int) (" + i + " Int)) (! (=> (<= " + r + " " + e.top(env.old) + ") (= (select (select " + cur + " " + r + ") " + i + ") (select (select " + old + " " + r + ") " + i + "))) :pattern ((select (select " + cur + " " + r + ") " + i + "))))")
+	case "tagof":
+		ts, ok := x.Args[0].(EStr)
+		if !ok {
+			e.unsupported("tagof(\"type\")")
+		}
+		_, ty := e.resolveType(ts.Val, nil)
+		return intVal(IntLit(int64(e.P.typeID(ty))))
 	case "staticerr":
 		// true exactly for the package-level error values made by errors.New (see globalFacts)
 		v := arg(0)
@@ -1060,6 +1082,12 @@ func (e *Exec) observe(x Expr, v Val, env *Env) {
 				e.Out.Assert(e.rangeFact(v.T, v.Ty, env.st))
 			} else if v.S == SSlice {
 				e.Out.Assert(e.rangeFact(v.T, v.Ty, env.st))
+			} else {
+				switch v.Ty.Underlying().(type) {
+				case *types.Pointer, *types.Map:
+					// references stored in allocated objects point at or below the allocation top of that state
+					e.Out.Assert(e.rangeFact(v.T, v.Ty, env.st))
+				}
 			}
 		}
 	}
